@@ -14,8 +14,10 @@ MANIFEST = dict(
          "and MakeData eligibility filters / Generate's srcMap / fileName / main's message loop, for ALL packages (lists of files of "
          "declarations with go/types facts) and all flag values: on the WF region the model's "
          "written files, the types each holds and the listed names equal the specification (named types / eligible types of the file / "
-         "eligible types of the package; src.shoot<cmd>[.<type>].go; bad names rejected with a diagnostic). Two finding regions with "
-         "witness theorems (-type=* dot-files); three former ones were repaired in /repo and are now asserted. Model tied to the code by running the rebuilt binary on generated multi-file packages for all four sub-commands, from the "
+         "eligible types of the package; src.shoot<cmd>[.<type>].go with src a base name of the package - no part of an output name "
+         "holds a path separator; bad names rejected with a diagnostic, among them names of functions, constants, variables, type "
+         "parameters, function-local and predeclared types). Three finding regions with "
+         "witness theorems (-type=* dot-files, names that are not package-level types); three former ones were repaired in /repo and are now asserted. Model tied to the code by running the rebuilt binary on generated multi-file packages for all four sub-commands, from the "
          "package directory and from other directories with [dir], with sub-command flags in the mix, and by an in-process differential "
          "of the go:generate line recogniser against the real findCmdLine.",
     note="Lean kernel + standard axioms; black-box correspondence on the rebuilt shoot binary (directory diff, top-level declarations of "
@@ -164,7 +166,7 @@ def gen_cases(ctx):
         p = g.package(cmd, n_elig=3, foreign_header=True, colocate=True)
         add(p, [sel_flag(rng, p["elig_hint"][:2])], ["named-two", "foreign-generated-header"])
         # ---- names that are not package-level types: function-local struct, predeclared type with constants, type parameter ----
-        for which in ("local", "predeclared", "tparam"):
+        for which in ("local", "predeclared", "tparam", "func", "gfunc", "const", "var"):
             p = g.package(cmd, n_elig=2, nfiles=3, extra=("nonpkg-names",))
             nm = p["nonpkg"][which]
             add(p, ["-file=" + rng.choice(p["files"])["name"], "-type=" + nm], ["file+named-notin", "nonpkg-" + which])
@@ -270,7 +272,7 @@ def gen_cases(ctx):
             if focus:
                 pool += [focus] * 12
             if p.get("nonpkg"):
-                pool += [p["nonpkg"]["local"], p["nonpkg"]["predeclared"], p["nonpkg"]["tparam"]] * 5
+                pool += [p["nonpkg"][w] for w in ("local", "predeclared", "tparam", "func", "gfunc", "const", "var")] * 3
             names = []
             for _ in range(n):
                 c = rng.choice(pool)
